@@ -1602,7 +1602,41 @@ pub fn gen_store_script(rng: &mut Rng, len: usize, p: &StoreProfile) -> Vec<Op> 
                 continue;
             }
         }
+        // the same non-lending restricted join again in the next "frame" (nothing in between but, at most, the readers
+        // being drained): the item fetched mutably last is fetched mutably first. (No draw from `rng`: the rest of the
+        // script stays what it was.)
+        let again = match &op {
+            Op::RJoin { k, mutable: true, shared: true, acts } if acts.len() % 2 == 1 || val % 3 == 0 =>
+                acts.iter().rposition(|a| matches!(a, RAct::GetMut { .. })).map(|j| {
+                    let mut a2: Vec<RAct> = vec![RAct::Skip; j];
+                    a2.push(acts[j].clone());
+                    (*k, Op::RJoin { k: *k, mutable: true, shared: true, acts: a2 })
+                }),
+            _ => None,
+        };
         ops.push(op);
+        if let Some((k, o2)) = again {
+            if val % 2 == 0 { ops.push(Op::Events(k)); }
+            ops.push(o2.clone());
+            ops.push(Op::Events(k));
+            ops.push(o2);
+            ops.push(Op::Events(k));
+        }
+    }
+    if p.lazy && !p.faults && !p.kinds.is_empty() && nlog > 0 && val % 7 == 3 {
+        // a busy frame: 65–140 queued insertions and removals on two or three entities (the order decides what is left),
+        // all of them run by ONE maintain. (Own generator state: the rest of the script stays what it was.)
+        let mut r2 = Rng::new((val as u64).wrapping_mul(31).wrapping_add(nlog as u64));
+        let n = r2.range(65, 140) as usize;
+        let k = *r2.pick(&p.kinds);
+        let hs: Vec<usize> = (0..r2.range(2, 3)).map(|_| pick_slot(&mut r2, nlog)).collect();
+        for _ in 0..n {
+            let h = *r2.pick(&hs);
+            if r2.chance(3, 5) { val += 1; ops.push(Op::LazyIns(k, h, if is_null_kind(k) { 0 } else { val })); }
+            else { ops.push(Op::LazyRem(k, h)); }
+        }
+        ops.push(Op::Maintain);
+        for &h in &hs { ops.push(Op::Get(k, h)); }
     }
     if p.far_apart && !p.faults && rng.chance(1, 3) {
         // `delete_all` over a population whose low indices have been thinned out (few entities below 64, many above):
